@@ -1123,6 +1123,20 @@ def plan_C09(tier, rng):
             for c in cfgs:
                 cs.write(ep, ty, 0, str(v), [c], buflen={"sym": "fsd", "d": 0}, tag="int-bound", want_len=True)
                 cs.write(ep, ty, 0, str(v), [c], buflen={"sym": "fsd", "d": -1})
+    # formats that add bytes to a numeral (a required '+'): the documented size must still be enough
+    if "rf" in cfgs:
+        for fname in ("syn_required_mantissa_sign", "syn_required_exponent_sign", "syn_required_exponent_notation"):
+            fid_ = fmt_id(fname)
+            for ty in gens.INT_TYPES:
+                lo, hi = gens.int_range(ty)
+                ep = cs.new_ep()
+                for v in (hi, lo, 0, hi // 10 + 1):
+                    cs.write(ep, ty, fid_, str(v), ["rf"], wo=True, buflen={"sym": "fsd", "d": 0}, tag="flagged-format-bound", want_len=True)
+                    cs.write(ep, ty, fid_, str(v), ["rf"], wo=True, buflen={"sym": "fsd", "d": 8}, tag="flagged-format-bound")
+            for F in (F64, F32):
+                for (bits, tag) in extreme_floats(F):
+                    ep = cs.new_ep()
+                    cs.write(ep, F["name"], fid_, bits, ["rf"], wo=True, opts=wf(), buflen={"sym": "bsc", "d": 0}, tag="flagged-format-bound", want_len=True)
     for F in (F64, F32):
         for (bits, tag) in extreme_floats(F):
             ep = cs.new_ep()
